@@ -5,9 +5,12 @@ package wkb
 
 // C04: Read never panics, whatever the reader delivers; it returns an error or a well-formed geometry
 // (C01); count-sized work is preceded by the limit checks. Recursion uses this contract.
+// with no options the decoder does NOT apply the all-NaN = empty point convention (the encoder's default rejects
+// empty points, so the two defaults have to agree for a decoded point to be re-encodable)
 //@ func Read
 //@   ensures res2 == nil ==> wfT(res1)
 //@   ensures res2 != nil ==> res1 == nil
+//@   ensures [default-points] len(opts) == 0 && res2 == nil && istype(res1, ptr_geom.Point) ==> len(unbox(res1, ptr_geom.Point).flatCoords) > 0
 //@   modifies nothing
 //@   at loop1.before: assert wkbcommon.MaxGeometryElements[1] < 0 || n <= wkbcommon.MaxGeometryElements[1]
 //@   at loop2.before: assert wkbcommon.MaxGeometryElements[2] < 0 || n <= wkbcommon.MaxGeometryElements[2]
